@@ -34,7 +34,6 @@ fn table() -> Vec<(&'static str, RunFn, ReplayFn)> {
     t.push(("C15", props::c15::run as RunFn, props::c15::replay as ReplayFn));
     #[cfg(feature = "full")]
     t.push(("C19", props::c19::run as RunFn, props::c19::replay as ReplayFn));
-    #[cfg(any(feature = "full", feature = "v-aws"))]
     t.push(("C14", props::c14::run as RunFn, props::c14::replay as ReplayFn));
     t.push(("C06", props::c06::run as RunFn, props::c06::replay as ReplayFn));
     #[cfg(feature = "full")]
